@@ -77,13 +77,13 @@ SetPoint(p) == /\ p # pt
 Strategies == {"solve_first", "residual_first"}
 AsmPre(c, st)    == IF st = "residual_first" /\ c \in GuardSeesApply THEN At(pt) ELSE asm[c]
 Refactors(c, st) == c \notin GuardedRefactor \/ lu[c] = None \/ AsmPre(c, st) # At(pt)
-RunLU(st) == [c \in Implicit |-> IF Refactors(c, st) THEN At(pt) ELSE lu[c]]
+RunLU(st) == [c \in Implicit |-> IF c \in RefactorsOnRun /\ Refactors(c, st) THEN At(pt) ELSE lu[c]]   \* a solve that keeps its factors local leaves the stored ones alone
 \* ... and a system whose setup() ADDS to an instance container created once per instance (CompTable.SetupStateful) computes
 \* from the leftovers of the previous set-up once Problem.setup() has been called again
 SetupClean == ~left \/ SetupStateful = {}
-RunOK(st) == SetupClean /\ \A c \in Implicit : RunLU(st)[c] = At(pt)
+RunOK(st) == SetupClean /\ \A c \in Implicit \cap RefactorsOnRun : RunLU(st)[c] = At(pt)
 EmitBadRun(st) == PrintT(<<"EMIT", ToJson([h |-> Append(hist, <<"run", st>>), culprits |-> {},
-                                           stalelu |-> {c \in Implicit : RunLU(st)[c] # At(pt)} \cup (IF SetupClean THEN {} ELSE SetupStateful)])>>)
+                                           stalelu |-> {c \in Implicit \cap RefactorsOnRun : RunLU(st)[c] # At(pt)} \cup (IF SetupClean THEN {} ELSE SetupStateful)])>>)
 RunModel(st) == /\ ranAt' = pt
                 /\ out' = IF RunOK(st) THEN At(pt) ELSE Wrong
                 /\ cache' = [c \in Caching |-> At(pt)]
@@ -107,7 +107,9 @@ Good(j)     == j.mult = 1 /\ j.at \in {At(pt), AnyT}
 (* BFS-shortest history per distinct predecessor state (hist is hidden by the VIEW) with its     *)
 (* culprits; the harness replays each on the real code before anything is reported (DESIGN 4.4). *)
 NewJac == [b \in Blocks |-> Cap(LinBlock(b))]
-NewLU  == [c \in Implicit |-> IF c \in RefactorsOnLinearize THEN At(pt) ELSE lu[c]]
+\* a refresh in linearize that sits behind a guard (GuardedRefactorLin) is only certain the first time: afterwards the guard may
+\* hold the old factors although the matrix has changed (e.g. a guard on the state, two points with the same state)
+NewLU  == [c \in Implicit |-> IF c \in RefactorsOnLinearize /\ (c \notin GuardedRefactorLin \/ lu[c] \in {None, At(pt)}) THEN At(pt) ELSE lu[c]]
 TotOK  == (\A b \in Blocks : Good(NewJac[b])) /\ (\A c \in Implicit : NewLU[c] = At(pt))
 EmitBad == PrintT(<<"EMIT", ToJson([h |-> Append(hist, <<"totals">>),
                                     culprits |-> {<<b[1], b[2], NewJac[b].at.kind, NewJac[b].mult>> : b \in {x \in Blocks : ~Good(NewJac[x])}},
@@ -151,6 +153,7 @@ TypeOK == pt \in Points /\ ranAt \in Points \cup {"none"}
 
 OutputsAtPoint == ranAt = pt => out \in {At(pt), Wrong}                             \* C03, C12, C20 (Wrong: emitted counterexample)
 OutputsNeverWrong == out # Wrong                                                    \* holds iff no refactor guard can be defeated
+NoGuardedLinearizeRefactor == GuardedRefactorLin = {}                              \* table-level statement
 NoSetupLeftovers == SetupStateful = {}                                              \* table-level statement: every set-up starts from a clean instance
 NoDefeatableGuard == GuardedRefactor \cap (GuardSeesApply \cup GuardSeesLinearize) = {}   \* table-level statement
 TotalsFresh    == tot \in {None} \cup {At(p) : p \in Points}                        \* C03: never a Wrong total
